@@ -45,25 +45,66 @@ def writeGfa (g : G D) : Option String :=
 def sliceDebug (start : Nat) (s : Seq) : String :=
   if s.length < Gen.sliceDebugLimit then seqStr s else s!"start: {start}, len: {s.length}, is_rc: false"
 
-/-- `to_json_rest(fmt, writer, rest)`; `fmt` renders a payload as JSON text, `rest` is a list of (key, rendered value) -/
-def toJsonRest (g : G D) (fmt : D → String) (rest : Option (List (String × String))) : Option String :=
-  let n := g.nodes.length
+/-- `Node::to_json` of every node: id, length, rendered payload, `Debug` of the sequence slice -/
+def nodeItems (g : G D) (fmt : D → String) : List String :=
   let starts := (g.nodes.foldl (fun (acc : List Nat × Nat) nd => (acc.1 ++ [acc.2], acc.2 + nd.seq.length)) ([], 0)).1
-  let nodeJson := fun (i : Nat) (nd : Node D) =>
-    "{\"id\":\"" ++ toString i ++ "\",\"L\":" ++ toString nd.seq.length ++ ",\"D\":" ++ fmt nd.data ++ ",\"Se\":\"" ++
-      sliceDebug (starts.getD i 0) nd.seq ++ "\"}" ++ (if i + 1 = n then "\n" else ",\n")
-  let nodesTxt := String.join (g.nodes.zipIdx.map fun (nd, i) => nodeJson i nd)
+  g.nodes.zipIdx.map fun x =>
+    "{\"id\":\"" ++ toString x.2 ++ "\",\"L\":" ++ toString x.1.seq.length ++ ",\"D\":" ++ fmt x.1.data ++ ",\"Se\":\"" ++
+      sliceDebug (starts.getD x.2 0) x.1.seq ++ "\"}"
+
+/-! #### the JSON writer as written: comma logic with flags and index tests (graph.rs 640-690, 1080-1103) -/
+
+def linkJson (i : Nat) (e : Nat × Dir × Bool) : String :=
+  "{\"source\":\"" ++ toString i ++ "\",\"target\":\"" ++ toString e.1 ++ "\",\"D\":\"" ++ (match e.2.1 with | .L => "L" | .R => "R") ++ "\"}"
+
+/-- `Node::edges_to_json`: one object per right edge, a comma after each but the last (`idx < edges.len() - 1`) -/
+def edgesToJsonImp (i : Nat) (es : List (Nat × Dir × Bool)) : String :=
+  es.zipIdx.foldl (fun acc (ei : (Nat × Dir × Bool) × Nat) =>
+    acc ++ linkJson i ei.1 ++ (if ei.2 < es.length - 1 then "," else "")) ""
+
+/-- the `links` loop: skip nodes without right edges; `wrote_any` puts `,\n` before every group but the first -/
+def linksImp (allEdges : List (List (Nat × Dir × Bool))) : String × Bool :=
+  allEdges.zipIdx.foldl (fun (acc : String × Bool) (ei : List (Nat × Dir × Bool) × Nat) =>
+    if ei.1.isEmpty then acc
+    else ((if acc.2 then acc.1 ++ ",\n" else acc.1) ++ edgesToJsonImp ei.2 ei.1, true)) ("", false)
+
+/-- the `nodes` loop: `\n` after the last node (`i == len - 1`), `,\n` after the others -/
+def nodesImp (n : Nat) (items : List String) : String :=
+  items.zipIdx.foldl (fun acc (si : String × Nat) => acc ++ si.1 ++ (if si.2 = n - 1 then "\n" else ",\n")) ""
+
+/-- `to_json_rest` statement by statement -/
+def toJsonRestImp (g : G D) (fmt : D → String) (rest : Option (List (String × String))) : Option String :=
+  let n := g.nodes.length
+  let nodesTxt := nodesImp n (nodeItems g fmt)
   match (List.range n).mapM (fun i => findEdges g i .R) with
   | none => none
   | some allEdges =>
-    let groups := (allEdges.zipIdx.filter fun (es, _) => !es.isEmpty).map fun (es, i) =>
-      ",".intercalate (es.map fun (t, d, _) =>
-        "{\"source\":\"" ++ toString i ++ "\",\"target\":\"" ++ toString t ++ "\",\"D\":\"" ++ (match d with | .L => "L" | .R => "R") ++ "\"}")
-    let linksTxt := if groups.isEmpty then "" else ",\n".intercalate groups ++ "\n"
+    let (links, wroteAny) := linksImp allEdges
+    let linksTxt := if wroteAny then links ++ "\n" else links
     let restTxt := match rest with
-      | some kvs => String.join (kvs.map fun (k, v) => ",\n\"" ++ k ++ "\": " ++ v ++ "\n")
+      | some kvs => kvs.foldl (fun acc (kv : String × String) => acc ++ ",\n" ++ "\"" ++ kv.1 ++ "\": " ++ kv.2 ++ "\n") ""
       | none => "\n"
-    some ("{\n\"nodes\": [\n" ++ nodesTxt ++ "],\n\"links\": [\n" ++ linksTxt ++ "]\n" ++ restTxt ++ "}\n")
+    some ("{\n\"nodes\": [\n" ++ nodesTxt ++ "],\n" ++ "\"links\": [\n" ++ linksTxt ++ "]\n" ++ restTxt ++ "}\n")
+
+/-! #### the document it is meant to write: arrays are their items separated by commas -/
+
+/-- the link objects of every node that has right edges, comma-separated per node -/
+def linkGroups (allEdges : List (List (Nat × Dir × Bool))) (k : Nat) : List String :=
+  ((allEdges.zipIdx k).filter fun x => !x.1.isEmpty).map fun x => ",".intercalate (x.1.map (linkJson x.2))
+
+/-- the JSON document of a graph: object with the array `nodes` (one object per node), the array `links` (one object per
+    right edge, grouped by source node) and the members of `rest` -/
+def jsonDoc (g : G D) (fmt : D → String) (rest : Option (List (String × String))) : Option String :=
+  let n := g.nodes.length
+  match (List.range n).mapM (fun i => findEdges g i .R) with
+  | none => none
+  | some allEdges =>
+    let groups := linkGroups allEdges 0
+    let arr := fun (items : List String) => if items.isEmpty then "" else ",\n".intercalate items ++ "\n"
+    let restTxt := match rest with
+      | some kvs => String.join (kvs.map fun (kv : String × String) => ",\n" ++ "\"" ++ kv.1 ++ "\": " ++ kv.2 ++ "\n")
+      | none => "\n"
+    some ("{\n\"nodes\": [\n" ++ arr (nodeItems g fmt) ++ "],\n" ++ "\"links\": [\n" ++ arr groups ++ "]\n" ++ restTxt ++ "}\n")
 
 /-! ### NodeKmerIter -/
 
